@@ -114,6 +114,7 @@ type txMeta struct {
 	Shadow  []*shadowResult // per msg, when shadows are enabled
 	soleInBlock bool
 	ModelAtShadow *OrbModel
+	DustBlacklistedAtShadow bool
 }
 
 func (s *Sim) acct(name string) *Account {
